@@ -1,8 +1,8 @@
 #!/bin/bash
 # tools/benign.sh <patch> <check ids...> : apply a behaviour-preserving patch to /repo, run the repository tests and the checks, restore
 P=$1; shift
-cd /repo && git apply $P || exit 9
-/tmp/mut/run_tests.sh /repo | tail -1
+P=$(readlink -f $P); cd /repo && git apply $P || exit 9
+/verif/tools/run_tests.sh /repo | tail -1
 cd /verif
 for c in "$@"; do ./check $c --tier quick 2>&1 | grep "^VIOLATION\|^INCONC\|tier=" | cut -c1-200 | tail -4; done
 git -C /repo checkout -- .
